@@ -263,8 +263,31 @@ func runC15(res *Result, d *Driver, tier string, seed uint64) {
 		reps = 5
 		race = 3000
 	}
+	// every real run is watched: a tracer that stops making progress is a violation, not a harness time-out
+	watched := func(script string) (runner.Result, bool) {
+		var pid int
+		ch := make(chan runner.Result, 1)
+		go func() {
+			r, _ := runPtraceProbe(RunSpec{Script: script, Filter: tracingFilter(), Timeout: 60 * time.Second, SyncFunc: func(p int) error { pid = p; return nil }})
+			ch <- r
+		}()
+		select {
+		case r := <-ch:
+			return r, true
+		case <-time.After(15 * time.Second):
+			res.Mismatch(Mismatch{Kind: "oracle", What: "the tracer never stops making progress: the run must end once the verdict is decided (C15)", Input: script,
+				Impl: "Run did not return within 15 s (the script itself ends within a fraction of a second)", Oracle: "violates"})
+			if pid > 0 {
+				syscall.Kill(-pid, syscall.SIGKILL)
+			}
+			return runner.Result{}, false
+		}
+	}
 	runOne := func(script, kind string) {
-		r, _ := runPtraceProbe(RunSpec{Script: script, Filter: tracingFilter()})
+		r, ok := watched(script)
+		if !ok {
+			return
+		}
 		res.Case("B:"+script, true, "hostile-"+kind+"-"+r.Status.String())
 		res.Traces++
 		if !programVerdict(r.Status) {
@@ -293,7 +316,10 @@ func runC15(res *Result, d *Driver, tier string, seed uint64) {
 		}
 		sb.WriteString("sys 231 0") // exit_group(0) while threads are in traced syscalls
 		script := sb.String()
-		r, _ := runPtraceProbe(RunSpec{Script: script, Filter: tracingFilter()})
+		r, ok := watched(script)
+		if !ok {
+			continue
+		}
 		res.Case("race:"+script+itoa(i), true, "race-"+r.Status.String())
 		res.Traces++
 		if r.Status != runner.StatusNormal {
